@@ -588,13 +588,14 @@ def _freeze(v):
 
 def check(ctx):
     ctx.explanation = (
-        "GTF importer decided structurally: the three relation tuples per line are resolved by reaching definitions and compared with "
-        "{(transcript,f,1),(gene,f,2),(gene,transcript,1)}; the pair query and both extent queries are normalised to conjunctive queries "
-        "and compared with the specification up to alias renaming; the record written to the temp file and the reader's key list are "
-        "matched position by position through the SELECT list and the fetchone unpack; the disable_infer_* flags are the exact control "
-        "dependences of the two writes; derived collisions use 'merge'; format routing is an order-sensitive decision table over "
-        "{force_gff} x {gff3, gtf, other}. R6 demands a guard (or sweep) excluding parent == child. Does not decide numeric extents "
-        "(aggregates are computed by SQLite over runtime rows).")
+        "GTF importer: the three relation tuples per line are resolved by reaching definitions and compared with "
+        "{(transcript,f,1),(gene,f,2),(gene,transcript,1)}; the pair query and the extent queries are normalised to conjunctive queries and "
+        "compared with the specification up to alias renaming; every field of the record written for a derived transcript/gene is traced by "
+        "value provenance to the column of the query row it comes from and matched with the reader's field names; the writes' path conditions "
+        "are evaluated three-valued over the four valuations of the disable_infer_* flags; derived collisions use 'merge'; format routing is a "
+        "decision table obtained by abstract evaluation of create_db and FeatureDB.update over force_gff x fmt x id_spec given/absent. R6 "
+        "demands a guard (or sweep) excluding parent == child. Does not decide numeric extents (aggregates are computed by SQLite over "
+        "runtime rows).")
     sch = schema(ctx)
     r1_r6(ctx, sch)
     res = r2(ctx, sch)
